@@ -211,7 +211,7 @@ class Runner:
             with open(os.path.join(corpus, 'seed%02d' % i), 'wb') as f:
                 f.write(rnd.randbytes([64, 512, 2048, 8192][i % 4]))
         atheris.Setup([sys.argv[0], '-seed=%d' % s, '-runs=%d' % (40 * budget), '-max_len=8192', '-len_control=0',
-                       '-timeout=1200', '-print_final_stats=0', '-verbosity=0', corpus], one)
+                       '-timeout=1200', '-rss_limit_mb=0', '-malloc_limit_mb=0', '-print_final_stats=0', '-verbosity=0', corpus], one)
         atheris.Fuzz()
         finish()        # not reached when libFuzzer exits by itself
 
